@@ -74,7 +74,7 @@ def gen(t, tier):
     nops = t.randint(6, 18 if tier == 'quick' else 30)
     for _ in range(nops):
         k = t.weighted([('req', 8), ('adv', 5), ('thr', 3), ('touch', 1), ('upfail', 1), ('seed', 1), ('req2', 3),
-                        ('age', 2 if meta != [1, 1] else 1)])
+                        ('age', 2 if meta != [1, 1] else 1), ('storefail', 1 if backend['type'] == 'file' else 0)])
         if k == 'req2':
             # two (or three) concurrent requests for the same or neighbouring tiles
             c = t.pick(pool)
@@ -107,6 +107,10 @@ def gen(t, tier):
             sc['ops'].append(['age', t.pick(pool), t.pick([3, 60, 3600, 86400, 30 * 86400])])
         elif k == 'upfail':
             sc['ops'].append(['upfail', bool(t.choice(2))])
+        elif k == 'storefail':
+            # the next request that has to store a tile meets a disk error while doing so (the upstream answered fine)
+            sc['ops'].append(['storefail', t.pick(['EIO', 'ENOSPC']), t.choice(3)])
+            sc['ops'].append(['req', [t.pick(pool)]])
         else:
             sc['ops'].append(['seed', {'offset': t.pick([-3600, -5, -1, 0, 1, 5])}])
     sc['tz'] = t.pick(C.TIMEZONES)
@@ -251,6 +255,24 @@ def _run(sc, tape):
         ts = _time.mktime(_time.strptime(row[1], '%Y-%m-%d %H:%M:%S'))     # recorded in local time
         return g, float(ts)
 
+    storefail = {'armed': False}
+
+    def fs_fault_hook(op, key, proc):
+        if storefail['armed'] and op in ('write', 'rename') and isinstance(key, (str, tuple)) and '/cache/' in str(key) \
+                and '.lck' not in str(key):
+            if storefail['skip'] > 0:
+                storefail['skip'] -= 1
+                return None
+            storefail['armed'] = False
+            import errno as _errno
+            faults['disk_error_while_storing'] = faults.get('disk_error_while_storing', 0) + 1
+            code = getattr(_errno, storefail['errno'])
+            e = OSError(code, os.strerror(code), str(key))
+            e.injected = True
+            raise e
+        return None
+    w.fs.fault_hook = fs_fault_hook
+
     def age_tile(coord, dt, cache):
         coord = tuple(coord)
         if onsim:
@@ -336,6 +358,9 @@ def _run(sc, tape):
                     w.fs.utime(TRIGGER, None)
             elif k == 'upfail':
                 upfail[0] = op[1]
+            elif k == 'storefail':
+                if onsim:
+                    storefail.update({'armed': True, 'errno': op[1], 'skip': op[2]})
             elif k == 'age':
                 age_tile(op[1], op[2], tm.cache)
             elif k == 'req':
@@ -364,6 +389,13 @@ def _run(sc, tape):
             exc = ex
         except (SimAbort, SimCrash, Bad):
             raise
+        except OSError as ex:
+            if not getattr(ex, 'injected', False):
+                raise Bad('request-raised', '%s raised %r\n%s' % (what, ex, ''.join(traceback.format_tb(ex.__traceback__)[-3:])))
+            exc = ex        # the injected disk error surfaced: the request failed, nothing it touched may be destroyed
+            ex = None
+            import gc
+            gc.collect()
         except Exception as ex:
             raise Bad('request-raised', '%s raised %r\n%s' % (what, ex, ''.join(traceback.format_tb(ex.__traceback__)[-3:])))
         thr2 = threshold_now()
@@ -418,8 +450,9 @@ def _run(sc, tape):
                 # write (whole seconds for the sqlite backends), whatever the source says about the age of its data
                 raise Bad('write-time-not-recorded', '%s: tile %s was written during this request (%s .. %s) but the cache '
                           'records %s as its time' % (what, c, _fmt(t_begin), _fmt(clock.now), _fmt(a[1])))
+        storefail['armed'] = False
         if exc is not None:
-            if not any(e['ok'] is False for e in calls):
+            if not any(e['ok'] is False for e in calls) and not getattr(exc, 'injected', False):
                 raise Bad('spurious-error', '%s raised %r although no upstream call failed' % (what, exc))
             for c in pool:
                 if before[c] is not None and after[c] != before[c] and not ok_calls:
